@@ -98,7 +98,8 @@ def make_kauri_data(cfg, which=0):
     n, d = (cfg["n"] if which == 0 else cfg.get("n2", cfg["n"])), cfg["d"]
     kind = cfg.get("data_kind", "continuous")
     if kind == "integers":
-        X = rs.randint(0, 4, size=(n, d)).astype(np.float64)
+        lo = 0 if rs.rand() < 0.6 else -2          # grids that contain the origin / are centred on it
+        X = rs.randint(lo, lo + 4, size=(n, d)).astype(np.float64)
     else:
         X = rs.normal(size=(n, d))
     if kind == "duplicates" and n >= 2:
@@ -117,6 +118,9 @@ def make_kauri_data(cfg, which=0):
             i, j = rs.randint(n), rs.randint(n)
             if i != j:
                 X[i] = X[j] * (1.0 + 10.0 ** (-rs.randint(7, 16))) + (1e-300 if rs.rand() < 0.2 else 0.0)
+                if rs.rand() < 0.4:
+                    # neighbouring doubles (0.3 and 0.1 + 0.2): no double lies strictly between the two values
+                    X[i] = np.nextafter(X[j], np.inf if rs.rand() < 0.5 else -np.inf)
     A = None
     if cfg["params"]["kernel"] == "precomputed":
         from sklearn.metrics import pairwise_kernels
@@ -465,10 +469,24 @@ def final_checks(res, oracle, model, cfg, X, A, kernel_matrix, query_rs):
         for r, (f, th) in enumerate(used[:3]):
             Q[9 + r] = X[query_rs.randint(n)]
             Q[9 + r, f] = np.nextafter(th, np.inf if r % 2 == 0 else -np.inf)    # one ulp beside the threshold
+    Q = np.vstack([Q, np.zeros((1, d)), -np.abs(Q[:1]), np.zeros((1, d))])      # the origin is a point like any other
     got = model.predict(Q)
     want = np.array([tree_route(t, q)[0] for q in Q])
     if not np.array_equal(got, want):
         V("C09:routing", {"got": got.tolist(), "want": want.tolist()})
+    # the label of a point does not depend on the batch it is predicted in: one row at a time, and pairs of rows
+    rows = [int(v) for v in query_rs.permutation(n)[:6]]
+    zero_rows = [int(i) for i in np.where(~X.any(axis=1))[0][:3]]
+    for i in dict.fromkeys(rows + zero_rows):
+        one = model.predict(X[i:i + 1])
+        if one.shape != (1,) or int(one[0]) != int(model.labels_[i]):
+            V("C09:predict_vs_labels:single_row", {"row": i, "x": X[i].tolist(), "got": one.tolist(), "label": int(model.labels_[i])})
+            break
+    for r in range(0, len(Q) - 1, 2):
+        two = model.predict(Q[r:r + 2])
+        if not np.array_equal(two, want[r:r + 2]):
+            V("C09:routing:small_batch", {"rows": [r, r + 1], "got": two.tolist(), "want": want[r:r + 2].tolist()})
+            break
     sc = model.score(X, A)
     ref = kkmeans_objective(pred, kernel_matrix)
     tol = 1e-9 * max(1.0, abs(ref), float(np.abs(kernel_matrix).sum()))
